@@ -57,7 +57,7 @@ type world struct {
 	file    []byte
 }
 
-var signerPools = [][]string{{"a-p256", "c-p256", "d-p384"}, {"b-p384", "c-p256", "d-p384"}, {"a2-p256", "d-p384", "c-p256"}, {"e-p256", "f-p384", "a-p256"}, {"f-p384", "c-p256", "e-p256"}}
+var signerPools = [][]string{{"a-p256", "c-p256", "d-p384"}, {"b-p384", "c-p256", "d-p384"}, {"a2-p256", "d-p384", "c-p256"}, {"e-p256", "f-p384", "a-p256"}, {"f-p384", "c-p256", "e-p256"}, {"g-p256", "a-p256", "d-p384"}}
 
 func covers(leaf *fixtures.Leaf, u *url.URL) bool {
 	return leaf.Cert().VerifyHostname(u.Hostname()) == nil
@@ -74,8 +74,14 @@ func addSignature(b *bundle.Bundle, signer *signature.Signer, rs int) error {
 		if !signer.CanSignForURL(e.Request.URL) {
 			continue
 		}
+		// (see buildWorld: a response that already carries a Digest cannot take payload
+		// integrity; the tool leaves such an exchange unsigned and carries on)
+		hadDigest := e.Response.Header.Get("Digest") != ""
 		pih, err := e.AddPayloadIntegrity(b.Version, rs)
 		if err != nil {
+			if hadDigest {
+				continue
+			}
 			return err
 		}
 		if err := signer.AddExchange(e, pih); err != nil {
@@ -126,6 +132,11 @@ func buildWorld(c *core.Ctx, base int64, tightWindows bool) *world {
 		u := gen.DrawURL(c, "bundle.url", i, false, "")
 		r := gen.DrawResp(c, "bundle.resp", i)
 		r.DirectMap = false
+		if c.Chance("bundle.preDigest", 1, 10) {
+			// the origin server already sent a Digest of another algorithm (RFC 3230)
+			r.Headers = append(r.Headers, gen.HV{Name: "Digest", Value: "sha-256=X48E9qOokqqrvdts8nOJRJN3OWDUoyWxBf7kbu9DBPE="})
+			c.Probe("response that already carries a Digest header")
+		}
 		if len(r.Body) > 2000 {
 			r.Body = r.Body[:2000]
 		}
@@ -235,6 +246,13 @@ func (w *world) sign(reload bool) error {
 			if !covers(s.leaf, e.Request.URL) {
 				continue
 			}
+			if e.Response.Header.Get("Digest") != "" {
+				// not signable as it stands (the tool skips it); if the library nevertheless signs
+				// it, the exchange-refused / altered-content clauses judge the outcome
+				if _, err := (&bundle.Exchange{Request: e.Request, Response: bundle.Response{Status: e.Response.Status, Header: e.Response.Header.Clone(), Body: e.Response.Body}}).AddPayloadIntegrity(b.Version, s.rs); err != nil {
+					continue
+				}
+			}
 			le := w.lb.Exchanges[w.indexOf(e.Request.URL.String(), j)]
 			if _, dup := w.vouched[le.URL]; dup {
 				continue
@@ -253,6 +271,14 @@ func (w *world) sign(reload bool) error {
 			return fmt.Errorf("addSignature %d: %v", i, err)
 		}
 		offerDuplicate = false
+		if c.Chance("signer.usedAgain", 1, 4) {
+			// history: the same Signer object is then used once more (for another bundle, with a
+			// refreshed date); what it returned for THIS bundle stays what it was
+			signer.SignedSubset.Date = signer.SignedSubset.Date.Add(time.Second)
+			signer.SignedSubset.Expires = signer.SignedSubset.Expires.Add(time.Second)
+			signer.UpdateSignatures(nil)
+			c.Probe("Signer object used again after it produced this bundle's signatures")
+		}
 		c.Event("signer %d: %s rs=%d chain=%d window [%d,%d]", i, s.leaf.Name, s.rs, s.chainLen, s.date, s.date+s.duration)
 	}
 	w.b = b
@@ -727,12 +753,15 @@ func (w *world) byzantine(c *core.Ctx, b *bundle.Bundle, class string) string {
 		sg := b.Signatures
 		i := c.Pick("sig.subset", len(sg.VouchedSubsets))
 		vs := sg.VouchedSubsets[i]
-		op := c.PickStr("sig.op", "sig-bit", "signed-bit", "authority-index", "authorities-swap", "drop-subset", "dup-subset", "swap-sig", "signed-retime", "authority-drop", "authority-odd-key", "malicious-signer", "malicious-signer")
+		op := c.PickStr("sig.op", "sig-bit", "sig-append", "signed-bit", "authority-index", "authorities-swap", "drop-subset", "dup-subset", "swap-sig", "signed-retime", "authority-drop", "authority-odd-key", "malicious-signer", "malicious-signer")
 		switch op {
 		case "sig-bit":
 			if len(vs.Sig) > 0 {
 				vs.Sig[c.Int("sig.off", 0, len(vs.Sig)-1)] ^= 1 << uint(c.Int("sig.bit", 0, 7))
 			}
+		case "sig-append":
+			// bytes behind the complete DER signature
+			vs.Sig = append(append([]byte(nil), vs.Sig...), c.Bytes("sig.extra", 1, 8)...)
 		case "signed-bit":
 			if len(vs.Signed) > 0 {
 				vs.Signed[c.Int("sig.off", 0, len(vs.Signed)-1)] ^= 1 << uint(c.Int("sig.bit", 0, 7))
